@@ -293,6 +293,59 @@ func history(x *runner, rng *hx.Rng, withCompaction bool) {
 	}
 }
 
+// afterCompaction: the histories in which the documented local-compaction step of `weed backup`
+// matters. Ids ascend and nothing is overwritten, so the index stays AppendAtNs-ordered across the
+// source compaction (the recorded binary-search defects stay out of the way and the run is expected
+// to converge):
+//   writes, backup, [delete, fetched by a backup run or not], source compaction,
+//   [a write before the next run], backup (local compaction, then delta copy / recreate / nothing),
+//   backup again, one more write, backup; every id read on both sides after every run.
+func afterCompaction(x *runner, rng *hx.Rng, variant int) {
+	x.exec([]string{"reset"})
+	var ids []uint64
+	next := uint64(1 + rng.Intn(5))
+	write := func(size int) {
+		ids = append(ids, next)
+		x.exec([]string{"w", hx.U(next), hx.U(uint64(ck0)), hx.Hex(rng.Bytes(size))})
+		next += 1 + uint64(rng.Intn(3))
+	}
+	size := func() int {
+		if rng.Chance(1, 3) {
+			return 1000 + rng.Intn(3000)
+		}
+		return 1 + rng.Intn(60)
+	}
+	write(1000 + rng.Intn(3000))
+	for k := rng.Intn(3); k >= 0; k-- {
+		write(size())
+	}
+	x.exec([]string{"backup"})
+	x.sweep(ids)
+	del := variant&1 != 0 || rng.Chance(1, 3)
+	fetched := variant&2 != 0
+	writeAfter := variant&4 != 0 || !del
+	if del {
+		x.exec([]string{"d", hx.U(ids[rng.Intn(len(ids)-1)]), hx.U(uint64(ck0))}) // never the last record
+		if fetched {
+			x.exec([]string{"backup"})
+			x.sweep(ids)
+		}
+	}
+	x.exec([]string{"compact"})
+	if writeAfter {
+		for k := rng.Intn(2); k >= 0; k-- {
+			write(size())
+		}
+	}
+	x.exec([]string{"backup"})
+	x.sweep(ids)
+	x.exec([]string{"backup"}) // an idle run
+	x.sweep(ids)
+	write(size())
+	x.exec([]string{"backup"})
+	x.sweep(ids)
+}
+
 type task func(x *runner, rng *hx.Rng)
 
 func main() {
@@ -316,6 +369,10 @@ func main() {
 	for i := 0; i < a.N(160); i++ {
 		i := i
 		tasks = append(tasks, func(x *runner, rng *hx.Rng) { history(x, rng, i%2 == 0) })
+	}
+	for i := 0; i < a.N(32); i++ {
+		i := i
+		tasks = append(tasks, func(x *runner, rng *hx.Rng) { afterCompaction(x, rng, i%8) })
 	}
 	results := make([]chan []line, len(tasks))
 	for i := range results {
